@@ -210,16 +210,24 @@ func (r *exactSizeReader) Read(buf []byte) (int, error) {
 		return n, err
 	}
 	// The last byte: look one byte further.
+	// Note: not io.ReadFull, which reports a short read as
+	// io.ErrUnexpectedEOF: that's also what a truncated source
+	// fails with itself.
 	var last [2]byte
-	n, err := io.ReadFull(r.r, last[:])
+	n, err := 0, error(nil)
+	for n < len(last) && err == nil {
+		var nn int
+		nn, err = r.r.Read(last[n:])
+		n += nn
+	}
 	switch {
-	case n == 1 && (err == io.ErrUnexpectedEOF || err == io.EOF):
+	case n == 1 && err == io.EOF:
 		buf[0] = last[0]
 		r.n++
 		return 1, nil
 	case n == 0 && err == io.EOF:
 		return 0, fmt.Errorf("blob content has %d bytes but descriptor size is %d: %w", r.n, r.size, ociregistry.ErrSizeInvalid)
-	case err == nil:
+	case n == len(last):
 		return 0, fmt.Errorf("blob content has more bytes than the descriptor size %d: %w", r.size, ociregistry.ErrSizeInvalid)
 	}
 	return 0, err
